@@ -22,8 +22,7 @@ def _(self, state, *args, context=None, **kwargs):
     raises(EvaluationException, label="a-sub-evaluation-failed")
     raises(Exception, label="the-command-raised")
     modifies_any("State.metadata")
-    ensures(rec_has(result.metadata, "is_error") and rec_has(result.metadata, "attributes") and rec_has(result.metadata, "type_identifier")
-            and rec_has(result.metadata, "vars"), "a-state-made-by-State()")
+    ensures(state_wf(result.metadata), "a-state-made-by-State()")
 
 
 @assumed("liquer.context.MetadataContextMixin.error", params=dict(self=CX, message=Str, position=Any, query=Opt(Str), traceback=Opt(Str)), returns=CX)
@@ -77,11 +76,8 @@ OPAQUE_EA = {"debug": NoneT, "info": NoneT, "warning": NoneT, "store_metadata": 
           params=dict(self=CX, state=ST, action=Ref("ActionLike"), extra_parameters=Opt(Seq(Any)), cache=Opt(Ref("Cache"))),
           returns=ST, opaque=OPAQUE_EA, locals=dict(parameters=Seq(Any)))
 def _(self, state, action, extra_parameters=None, cache=None):
-    requires(rec_has(state.metadata, "is_error"), "the-input-state-carries-an-error-flag")
     requires(not isnone(self.raw_query), "called-from-evaluate:the-context-knows-its-query")
-    requires(rec_has(state.metadata, "attributes") and rec_has(state.metadata, "type_identifier") and rec_has(state.metadata, "vars")
-             and rec_has(state.metadata, "query"),
-             "a-state-made-by-State():standard-fields-present")
+    requires(state_wf(state.metadata), "a-state-made-by-State():standard-keys-present")
     g = module("liquer.cache")._cache
     c = ite(isnone(cache), g, unopt(cache))
     extras = not isnone(extra_parameters) and len(unopt(extra_parameters)) > 0
@@ -118,8 +114,11 @@ def _(self, state, action, extra_parameters=None, cache=None):
     ensures(implies(not is_file_label, log_count("Cache.store_metadata") == 1 and log_arg("Cache.store_metadata", "self") is c
                     and log_arg("Cache.store_metadata", "metadata") == result.metadata), "final-metadata-goes-to-the-given-cache")
     ensures(implies(is_file_label, result is state and log_count("CommandExecutable.__call__") == 0), "a-file-name-only-labels-the-state")
+    ensures(state_wf(result.metadata), "the-result-is-a-state-with-the-standard-keys")
 
 
 prop("C05", fucs=["liquer.context.Context.evaluate_action"])
+prop("C09", fucs=["liquer.context.Context.evaluate_action"])
+prop("C04", fucs=["liquer.context.Context.evaluate_action"])
 prop("C06", fucs=["liquer.context.Context.evaluate_action"])
 prop("C18", fucs=["liquer.context.Context.evaluate_action"])
